@@ -255,17 +255,13 @@ def c10_m_rfc3339_fields(o):
     ndt = Agg("struct", "NaiveDateTime", [date, t])
     r = o.call("format::formatting::write_rfc3339", OpaqueV("sink"), ndt, Agg("struct", "FixedOffset", [off]), EnumV("SecondsFormat", sf.e), BoolV(uzi.e == 1), name="write")
     ok = r.disc == 0
-    o.flat = [z3.If(ok, 1, 0)]
-    o.no_panic()
     H = rec["hundreds"]
     if len(H) != 7 or len(months) != 1 or len(days) != 1:
         raise _api.Unsupported(f"writer shape changed: {len(H)} write_hundreds call sites (7 expected)")
     leap = tf >= G
     nano = z3.If(leap, tf - G, tf)
     want = [y.e / 100, y.e % 100, months[0], days[0], ts / 3600, ts / 60 % 60, ts % 60 + z3.If(leap, 1, 0)]
-    o.reachable("leap_second_whole", z3.And(tf == G, ts % 60 == 59))
-    o.claim("always_ok", ok)
-    o.claim("two_digit_groups_are_the_wall_clock_fields", z3.And(*[z3.And(pc, n == w) for (pc, n), w in zip(H, want)]))
+
     D = [x for x in rec["display"] if x[2] == "u32"]
     if len(D) != 6:
         raise _api.Unsupported(f"writer shape changed: {len(D)} fraction write! sites (6 expected)")
@@ -280,10 +276,20 @@ def c10_m_rfc3339_fields(o):
     A = {sc: z3.Or(*[D[i][0] for i in unit if unit[i] == sc]) for sc in (1000000, 1000, 1)}
     digits = {1000000: 3, 1000: 6, 1: 9}
     frac_val = z3.Sum(*[z3.If(D[i][0], D[i][1], 0) for i in unit])
-    frac_dig = z3.Sum(*[z3.If(D[i][0], digits[unit[i]], 0) for i in unit])
+    def printed_width(v, nd):
+        # `{:0nd}` prints at least nd digits, more when the value does not fit (that would be a defect; it must be visible)
+        e = z3.IntVal(nd)
+        for k in range(nd, 11):
+            e = z3.If(v >= 10 ** k, k + 1, e)
+        return e
+    frac_dig = z3.Sum(*[z3.If(D[i][0], printed_width(D[i][1], digits[unit[i]]), 0) for i in unit])
     # observable output vector (the probe parses the same numbers out of the real text): ok, year pairs, clock groups,
     # fraction value and digit count
     o.flat = [z3.If(ok, 1, 0), H[0][1], H[1][1], H[4][1], H[5][1], H[6][1], frac_val, frac_dig]
+    o.no_panic()
+    o.reachable("leap_second_whole", z3.And(tf == G, ts % 60 == 59))
+    o.claim("always_ok", ok)
+    o.claim("two_digit_groups_are_the_wall_clock_fields", z3.And(*[z3.And(pc, n == w) for (pc, n), w in zip(H, want)]))
     o.claim("fraction_value_is_exact_in_its_unit", z3.And(*[z3.Implies(D[i][0], D[i][1] == nano / unit[i]) for i in unit]))
     none = z3.Not(z3.Or(*A.values()))
     only = lambda sc: z3.And(A[sc], *[z3.Not(A[x]) for x in A if x != sc])
@@ -394,3 +400,33 @@ def c09_m_time_debug_fields(o):
         D[0][0] == z3.And(nano != 0, nano % 1000000 == 0), z3.Implies(D[0][0], D[0][1] * 1000000 == nano),
         D[1][0] == z3.And(nano % 1000000 != 0, nano % 1000 == 0), z3.Implies(D[1][0], D[1][1] * 1000 == nano),
         D[2][0] == (nano % 1000 != 0), z3.Implies(D[2][0], D[2][1] == nano)))
+
+
+@obligation(prop="C09", tier="quick", timeout=600, probe="offset_debug_ok",
+            desc="Debug / Display of FixedOffset (the default text form of offsets, also at the end of every DateTime), the values it prints (text abstracted): the sign character is '-' exactly for negative offsets (also those between -01:00 and 00:00), then |offset| / 3600, |offset| / 60 mod 60, and the seconds |offset| mod 60 exactly when they are non-zero -- which is what the FromStr side reads back as the same offset",
+            bounds="all offsets in (-24h, 24h) at one-second resolution; the Formatter sink is abstract (the arguments of the two write! sites are recorded)",
+            outside="digit rendering (core::fmt), the reader (K: c09_offset_weekday_month in the thorough tier)")
+def c09_m_offset_debug_fields(o):
+    rec = recording_sink(o)
+    o.summarize_raw(r"Formatter(::)?<'_>(::| as std::fmt::Write>::| as Write>::)write_(char|str|fmt)$", lambda ex, st, a: (st, OKR()))
+    off = o.input("off", "i32")
+    o.require(z3.And(off.e > -DAY, off.e < DAY))
+    r = o.call("<FixedOffset as Debug>::fmt", o.ref(Agg("struct", "FixedOffset", [off])), OpaqueV("formatter"), name="debug")
+    ok = r.disc == 0
+    D = rec["display"]
+    # the two write! sites hand over (sign, hour, minute) and (sign, hour, minute, second): split at the sign arguments
+    starts = [i for i, x in enumerate(D) if x[2] == "u32"]
+    sites = [D[a:b] for a, b in zip(starts, starts[1:] + [len(D)])]
+    if sorted(len(x) for x in sites) != [3, 4]:
+        raise _api.Unsupported(f"writer shape changed: write! argument groups {[len(x) for x in sites]}")
+    a = z3.If(off.e < 0, -off.e, off.e)
+    want = [z3.If(off.e < 0, ord("-"), ord("+")), a / 3600, a / 60 % 60, a % 60]
+    short = [x for x in sites if len(x) == 3][0]
+    full = [x for x in sites if len(x) == 4][0]
+    sel = lambda i: z3.If(short[0][0], short[i][1] if i < 3 else 0, full[i][1])
+    o.flat = [z3.If(ok, 1, 0), z3.If(sel(0) == ord("-"), 1, 0), sel(1), sel(2), sel(3)]
+    o.no_panic()
+    o.reachable("between_minus_one_hour_and_zero", z3.And(off.e < 0, off.e > -3600))
+    o.claim("always_ok", ok)
+    o.claim("seconds_printed_iff_non_zero", z3.And(short[0][0] == (a % 60 == 0), full[0][0] == (a % 60 != 0)))
+    o.claim("sign_hours_minutes_seconds", z3.And(*[z3.Implies(site[0][0], z3.And(*[x[1] == w for x, w in zip(site, want)])) for site in (short, full)]))
